@@ -306,7 +306,7 @@ def eval_case(ctx, case):
 # ------------------------------------------------------------------------------------------- workload
 
 TK = ["block_para", "block_heading", "attr_para", "attr_heading", "attr_span", "dir_title", "dir_plain", "slug"]
-TITLES = ["Alpha Beta", "alpha beta", "Gamma", "Delta!", "x `code` y", "Ünï cödé"]
+TITLES = ["Alpha Beta", "alpha beta", "Gamma", "Gamma", "Gamma 1", "gamma-1", "Delta!", "x `code` y", "Ünï cödé"]
 
 
 def make_case(R):
@@ -314,6 +314,14 @@ def make_case(R):
     names = []
     nt = R.randint(1, 7)
     slug_titles = []
+    if R.random() < 0.2:
+        # a cluster of duplicate titles plus a title whose own slug looks like a suffixed duplicate
+        base = R.choice(["Gamma", "Rel ease", "x"])
+        cluster = [base, base, base + " 1", R.choice([base, base + "-1", base + " 1"])]
+        R.shuffle(cluster)
+        for t in cluster:
+            items.append({"k": "target", "tk": "slug", "title": t, "level": R.choice([1, 2, 2]), "cont": R.choice(["top", "top", "quote"]), "uniq": False})
+            slug_titles.append(t)
     for i in range(nt):
         tk = R.choice(TK)
         cont = R.choice(["top", "top", "top", "quote", "list", "note", "tip-colon"])
@@ -338,7 +346,7 @@ def make_case(R):
     from_slugs = []
     # slugs as they will be (model): computed later; offer the base slugs and suffixed forms
     for t in slug_titles:
-        from_slugs += [slug0(t), slug0(t) + "-1"]
+        from_slugs += [slug0(t), slug0(t) + "-1", slug0(t) + "-2", slug0(t) + "-1-1"]
     nl = R.randint(1, 10)
     for j in range(nl):
         x = R.random()
